@@ -152,11 +152,13 @@ type Kernel struct {
 	cur      *G // baton holder
 	rng      Rand
 	schedRng Rand
+	auxRng   Rand // choices made on behalf of the program's own nondeterminism (sync.Pool): their number must not shift the environment's draws
 	entropy  Rand
 	tape     []uint32
 	tapePos  int
 	events   eventHeap
 	evSeq    uint64
+	Abandoned bool  // a long time jump over periodic program timers was given up (see Advance)
 	afSeq    uint64 // time.AfterFunc timers made so far
 	adoptMu  sync.Mutex
 	adopt    []adopted // callbacks of timers that fired and are not started yet
@@ -204,6 +206,7 @@ func RunWorld(t *testing.T, cfg Config, body func(k *Kernel)) (k *Kernel) {
 	k = &Kernel{Cfg: cfg, Ext: map[string]interface{}{}}
 	k.rng.Seed(cfg.Seed)
 	k.schedRng.Seed(cfg.Seed ^ 0x9e3779b97f4a7c15)
+	k.auxRng.Seed(cfg.Seed ^ 0x5851f42d4c957f2d)
 	k.entropy.Seed(cfg.Seed ^ 0x5851f42d4c957f2d)
 	k.tape = nil
 	if cfg.Replay {
@@ -521,6 +524,14 @@ func (k *Kernel) Draw(n int) int {
 	return v
 }
 
+// DrawAux is Draw from a stream of its own (recorded on the same tape).
+func (k *Kernel) DrawAux(n int) int {
+	if n <= 1 {
+		return 0
+	}
+	return k.decide(n, func() int { return int(k.auxRng.Uint64() % uint64(n)) })
+}
+
 // record a decision made by a strategy (generation) or read it (replay)
 func (k *Kernel) decide(n int, pick func() int) int {
 	if n <= 1 {
@@ -776,12 +787,20 @@ func (k *Kernel) RunIdle() {
 // enabled (timers of the program, kernel events) at its exact instant.
 func (k *Kernel) Advance(d time.Duration) {
 	deadline := time.Now().Add(d)
+	step0, t0 := k.Step, time.Now()
 	for {
 		k.RunIdle()
 		if k.stopped() {
 			return
 		}
 		now := time.Now()
+		if k.Step-step0 > idleStepBudget && now.Sub(t0) > time.Hour {
+			// the program has periodic timers (a ticker, a poll loop) and the world wants to let a long time pass:
+			// every tick is a step. Not a livelock - time does pass - but not affordable: the world is abandoned
+			// (what it judged so far stands; nothing more is judged), which is no verdict on the program
+			k.Abandoned = true
+			return
+		}
 		if !now.Before(deadline) {
 			return
 		}
@@ -802,8 +821,11 @@ func (k *Kernel) Advance(d time.Duration) {
 	}
 }
 
+// idleStepBudget: steps one Advance may spend on the program's own timers before the world is abandoned.
+const idleStepBudget = 150000
+
 func (k *Kernel) stopped() bool {
-	return len(k.Panics) > 0 || len(k.Failures) > 0 || k.StepLimit
+	return len(k.Panics) > 0 || len(k.Failures) > 0 || k.StepLimit || k.Abandoned
 }
 
 // Settle runs until the world is quiescent: nothing enabled and no kernel
@@ -811,9 +833,14 @@ func (k *Kernel) stopped() bool {
 // most max in total.
 func (k *Kernel) Settle(max time.Duration) bool {
 	deadline := time.Now().Add(max)
+	step0, t0 := k.Step, time.Now()
 	for {
 		k.RunIdle()
 		if k.stopped() {
+			return false
+		}
+		if k.Step-step0 > idleStepBudget && time.Since(t0) > time.Hour {
+			k.Abandoned = true // see Advance
 			return false
 		}
 		if len(k.events) == 0 {
